@@ -629,6 +629,14 @@ impl<Controller: SourceController> NtpSource<Controller> {
             // to denial of service attacks.
             debug!("Received old/unexpected packet from source");
             actions!()
+        } else if message.is_kiss_ntsn() {
+            // This must be checked before the other kiss codes: an NTS NAK is the
+            // only response we accept without authentication, and (in NTPv5) a
+            // packet can carry the NAK flag together with a RATE or DENY request.
+            warn!("Received nts not-acknowledge");
+            // as these can be easily faked, we dont immediately give up on receiving
+            // a response.
+            actions!()
         } else if message.is_kiss_rate(self.last_poll_interval) {
             // KISS packets may not have correct timestamps at all, handle them anyway
             self.remote_min_poll_interval = Ord::max(
@@ -648,11 +656,6 @@ impl<Controller: SourceController> NtpSource<Controller> {
                 self.have_deny_rstr_response = true;
                 actions!()
             }
-        } else if message.is_kiss_ntsn() {
-            warn!("Received nts not-acknowledge");
-            // as these can be easily faked, we dont immediately give up on receiving
-            // a response.
-            actions!()
         } else if message.is_kiss() {
             warn!("Unrecognized KISS Message from source");
             // Ignore unrecognized control messages
